@@ -169,6 +169,41 @@ def main(tier):
                     ks = [k for k, x in enumerate(values[: len(scal)]) if isinstance(x, (int, float)) and not isinstance(x, bool)]
                     if all(not (ti[k] is True) or tj[k] is True for k in ks) and any(ti[k] is True for k in ks):
                         chk.add_failure(f"implies({texts[i]}, {texts[j]})", {"what": "returns False on a listed pair although the entailment holds on the dense grid"}, None)
+    # ---- soundness holds for EVERY pair of predicates, also over constants the model's linear order does not describe:
+    # constants that are == but of different types (True / 1 / 1.0, False / 0 / 0.0: one model constant, several Python values),
+    # and constants that are only partially ordered (frozensets under inclusion, NaN).  No model here: whenever the real implies
+    # says True, no probe may satisfy p and not q.
+    from predicate import eq_p, ge_p, gt_p, in_p, le_p, lt_p, ne_p, not_in_p
+
+    nan = float("nan")
+    fs = [frozenset(), frozenset({1}), frozenset({2}), frozenset({1, 2}), frozenset({1, 3}), frozenset({1, 2, 3})]
+    mixed = [True, 1, 1.0, False, 0, 0.0, 2, 2.0]
+    extra = []
+    for c in mixed:
+        extra += [(f"eq_p({c!r})", eq_p(c)), (f"ne_p({c!r})", ne_p(c)), (f"ge_p({c!r})", ge_p(c)), (f"gt_p({c!r})", gt_p(c))]
+    extra += [("in_p(True, 2)", in_p(True, 2)), ("in_p(1, 2)", in_p(1, 2)), ("in_p(0.0)", in_p(0.0)), ("in_p(False)", in_p(False)), ("not_in_p(1)", not_in_p(1)), ("not_in_p(True)", not_in_p(True)),
+              ("not_in_p(0, 2.0)", not_in_p(0, 2.0))]
+    for c in fs + [nan, 1.0, 2.0]:
+        extra += [(f"ge_p({c!r})", ge_p(c)), (f"gt_p({c!r})", gt_p(c)), (f"eq_p({c!r})", eq_p(c))]
+    extra += [(f"in_p({fs[1]!r}, {fs[3]!r})", in_p(fs[1], fs[3])), ("le_p(nan)", le_p(nan)), ("lt_p(1.0)", lt_p(1.0))]
+    extra += [(f"({a[0]} & {b[0]})", a[1] & b[1]) for a, b in zip(extra[:40:3], extra[1:41:3])]
+    probes = mixed + [3, -1, 0.5, 1.5, nan, None, "a"] + fs + [frozenset({3}), frozenset({1, 2, 3, 4})]
+    xtab = [[val(p_, x) for x in probes] for _d, p_ in extra]
+    xsound = 0
+    for i, (di, pi) in enumerate(extra):
+        for j, (dj, pj) in enumerate(extra):
+            try:
+                r = implies(pi, pj)
+            except Exception:  # noqa: BLE001  incomparable constants: no answer, nothing to judge
+                continue
+            if r:
+                xsound += 1
+                for k, x in enumerate(probes):
+                    if xtab[i][k] is True and xtab[j][k] is False:
+                        chk.add_failure(f"implies({di}, {dj})", {"what": "returns True but a value satisfies p and not q (constants equal across types / partially ordered)", "value": repr(x)}, None)
+                        break
+    chk.evaluations += len(extra) ** 2
+    chk.extra["sound_pairs_checked_cross_type_and_partial_order"] = xsound
     chk.extra["sound_pairs_checked"] = sound_checked
     chk.extra["listed_false_pairs_checked_for_completeness"] = complete_checked
     chk.rule = (
